@@ -113,7 +113,7 @@ func (w *world) exhaust(d *doc, set settings, coqSamples int) {
 	}
 }
 
-var sitesFor = []site{siteHeader, siteMeta, siteHTTPEquiv, siteNone, siteConflict, siteTwoMeta, siteLateMeta, siteHdrUnk, siteHdrUTF8, siteTextFirst}
+var sitesFor = []site{siteHeader, siteMeta, siteHTTPEquiv, siteNone, siteConflict, siteTwoMeta, siteLateMeta, siteHdrUnk, siteHdrUTF8, siteTextFirst, siteNoDecl, sitePragmaThenMeta}
 
 func runC15(r *hk.Run) {
 	r.Header = "From ReqV Require Import Model.C15Run.\nImport ListNotations."
@@ -150,6 +150,19 @@ func runC15(r *hk.Run) {
 		}
 	}
 
+	// A1c. response headers next to Content-Type: Accept-Encoding on the response (RFC 9110 12.5.3, e.g.
+	// a 415) does not concern the body - the declared charset must still be applied; Content-Encoding
+	// still present = the body reaches the charset stage encoded - must be left alone
+	if gbk := specByName("gbk"); gbk != nil {
+		for i, s := range []site{siteHeader, siteMeta} {
+			d, _ := makeDoc(hk.NewRand(uint64(30+i)), s, gbk, 120)
+			for _, set := range []settings{{Sel: "default", RespAE: "gzip"}, {Sel: "default", RespAE: "gzip, br"}, {Sel: "default", RespCE: "x-custom"}, {Sel: "default", RespCE: "gzip", RespAE: "gzip"}} {
+				w.unit(d, set, [][]byte{d.Body}, false, []int{512}, "zero", true)
+				w.unit(d, set, splitAt(d.Body, []int{d.TextStart + 3}), true, []int{7, 4096}, "stale-meta", true)
+			}
+		}
+	}
+
 	// A2. selection is by case-sensitive substring on the whole Content-Type value: spellings outside
 	// the configured selection must be left alone, whatever they declare
 	for i, ct := range []string{"TEXT/HTML", "Text/Html; charset=gbk", "APPLICATION/JSON; charset=gbk", "TEXT/PLAIN; charset=big5", "application/octet-stream; charset=gbk", "image/svg; charset=gbk"} {
@@ -181,7 +194,7 @@ func runC15(r *hk.Run) {
 		if cs.UTF8 && rnd.Chance(50) {
 			s = hk.Pick(rnd, []site{siteBOM, siteNone, siteMeta, siteHeader})
 		}
-		if cs.UTF16 && (s == siteHdrUnk || s == siteHdrUTF8 || s == siteTwoMeta || s == siteLateMeta || s == siteTextFirst) {
+		if cs.UTF16 && (s == siteHdrUnk || s == siteHdrUTF8 || s == siteTwoMeta || s == siteLateMeta || s == siteTextFirst || s == siteNoDecl || s == sitePragmaThenMeta) {
 			s = hk.Pick(rnd, []site{siteBOM, siteHeader})
 		}
 		target := hk.Pick(rnd, bodyTargets)
@@ -197,6 +210,12 @@ func runC15(r *hk.Run) {
 
 	// C. settings and content types
 	w.settingsCells()
+
+	// C2. charsets.FindEncoding against x/net's own WHATWG sniffing on many-meta documents
+	w.findCells()
+
+	// C3. several live responses on one transport, read interleaved
+	w.interleaved()
 
 	// D. network errors in mid-body (oracle only)
 	w.netErrors()
@@ -228,6 +247,8 @@ func (w *world) settingsCells() {
 		{Sel: "fn", FnAns: false},
 		{Sel: "default", RespAE: "gzip"},
 		{Sel: "all", RespAE: "identity"},
+		{Sel: "default", RespCE: "x-custom"},
+		{Sel: "all", RespCE: "gzip", RespAE: "br"},
 	}
 	n := w.r.Scale(60, 500)
 	for i := 0; i < n; i++ {
@@ -282,6 +303,6 @@ func (w *world) netErrors() {
 		}
 		chunks := randomSplit(rnd, d.Body, rnd.Range(1, 4))
 		u := &unitCase{Kind: "unit", Doc: d, Set: defaultSet, Chunks: chunks, Pattern: hk.Pick(rnd, sizePatterns[3:]), BufMode: "stale-meta", FailAt: rnd.Intn(len(chunks))}
-		w.eval(u, false)
+		w.eval(u, len(d.Body) <= 700)
 	}
 }
